@@ -3,9 +3,10 @@ Driver for C17 (trace validation).  Input, one scenario per line:
 
   sd <id> <mode> plan=<…> reqs=<r>:<c>:<kind>;… watch=<c>,… nwait=<n> <event log> => closed=<ok|err|timeout|panicked> released=<n> late=<n>
 
-* `agree` — `Shutdown.acceptsSettled` accepts the observed log after the two
-  unobservable events (`AcceptStopped`, `JoinResolved res`) have been inserted
-  immediately before the first released waiter (`Shutdown.elaborate`);
+* `agree` — `Shutdown.acceptsSettled` accepts the observed log after the
+  unobservable events have been inserted at the latest consistent point
+  (`Shutdown.elaborate`: `AcceptStopped`, `Drained` before the first refused
+  connect or released waiter, `JoinResolved res` before the first released waiter);
 * `spec`  — the clauses of the property evaluated on the flat observed log
   and the harness observations.
 -/
@@ -52,7 +53,7 @@ def showEvent : Event → String
   | .lc (.reqSent c r) => s!"Q{c}:{r}" | .lc (.start r) => s!"S{r}" | .lc (.tick r) => s!"T{r}"
   | .lc (.disconnect c) => s!"C{c}" | .lc (.done r) => s!"D{r}" | .lc (.drop r) => s!"X{r}"
   | .lc (.panic r) => s!"P{r}" | .lc (.respDelivered r) => s!"R{r}"
-  | .closeRequested => "CL" | .acceptStopped => "AS" | .connClosed c => s!"K{c}"
+  | .closeRequested => "CL" | .acceptStopped => "AS" | .drained => "DR" | .connClosed c => s!"K{c}"
   | .joinResolved b => s!"J{b}" | .waiterReleased i b => s!"W{i}:{b}"
   | .connectRefused => "NR" | .connectAccepted => "NA"
 
@@ -84,10 +85,6 @@ def idxWhere (p : Event → Bool) : List Event → Nat → Option Nat
   | x :: xs, i => if p x then some i else idxWhere p xs (i + 1)
 
 def idx (e : Event) (tr : List Event) : Option Nat := idxWhere (· == e) tr 0
-
-def isWaiter : Event → Bool
-  | .waiterReleased _ _ => true
-  | _ => false
 
 /-- position of the first released waiter = latest possible position of the join -/
 def joinIdx (tr : List Event) : Option Nat := idxWhere isWaiter tr 0
@@ -137,14 +134,19 @@ def specWaiters (tr : List Event) (nwait : Nat) : Bool :=
 
 /-- "once shutdown has finished the listening port no longer accepts
 connections": after the first released waiter no connect succeeded and the
-probe made after close() returned was refused; a refusal is never seen before. -/
+probe made after close() returned was refused; once a connect was refused
+(the listener is dropped when the server task is done, possibly before the
+detached handlers are) none succeeds any more. -/
 def specPort (tr : List Event) : Bool :=
   match joinIdx tr with
   | none => false
   | some j =>
     let post := tr.drop j
-    let pre := tr.take j
-    !post.contains .connectAccepted && post.contains .connectRefused && !pre.contains .connectRefused
+    let afterRefusal := match idx .connectRefused tr with
+      | some k => tr.drop k
+      | none => []
+    !post.contains .connectAccepted && post.contains .connectRefused
+      && !afterRefusal.contains .connectAccepted
 
 /-- every client that stayed saw its connection closed, and only after close was requested. -/
 def specConnsClosed (tr : List Event) (watch : List Nat) : Bool :=
